@@ -20,6 +20,10 @@ impl Admin {
     #[verifier::external_body]
     pub fn get(&self, deps: Deps) -> (r: Result<Option<Addr>, StdError>)
         ensures r is Ok && r->Ok_0 == self.admin_of(deps.storage) { unimplemented!() }
+    /// R15 target: `ADMIN.set(deps.branch(), a)` (cw-controllers: saves the Option under the admin item; touches storage only)
+    #[verifier::external_body]
+    pub fn set_in(&self, s: &mut Storage, a: Option<Addr>) -> (r: Result<(), StdError>)
+        ensures r is Ok, final(s).kv@ == old(s).kv@.insert(self.key(), ser(a)) { unimplemented!() }
 }
 pub struct Hooks { pub ns: u64 }
 impl Hooks {
